@@ -18,6 +18,7 @@ package vgirpc
 //@   property C28
 //@   nopanic
 //@   loop 0 invariant 0 <= i && i <= len(header)
+//@   loop 0 decreases len(header) - i
 //@   at call strings.Index assert [atboundary] !inQuote && 0 <= i && i < len(header) && (i == 0 || header[i-1] == 32 || header[i-1] == 44)
 //@   at call strings.Index assert [aftername] arg0 == header[i+len(key):] && arg1 == "\""
 //@   at call strings.HasPrefix assert [nameandquote] arg0 == header[i:] && arg1 == key
